@@ -287,7 +287,10 @@ class Check:
         print(f'  {desc}', flush=True)
 
     def finish(self, rule='', extra_cov=None, checker_cmd=None):
-        obs = self.obligations
+        # obligations that probe the LITERAL reading of a clause already recorded as a known finding are expected to be
+        # sat; they are reported separately and are not part of the discharged/obligations account of the claim
+        probes = [o for o in self.obligations if o.finding_key and self.is_known(o.finding_key)]
+        obs = [o for o in self.obligations if not (o.finding_key and self.is_known(o.finding_key))]
         n = len(obs)
         unsat = sum(1 for o in obs if o.result is not None and o.result.status == 'unsat')
         sat = [o for o in obs if o.result is not None and o.result.status == 'sat']
@@ -307,6 +310,7 @@ class Check:
                              secs=round(o.result.secs, 2) if o.result else None, words=o.words) for o in obs],
             'translator_validation': self.validation,
             'known_findings_hit': [k for k, _ in self.known_hits],
+            'known_finding_probes': [dict(name=o.name, status=o.result.status if o.result else 'not-run', key=o.finding_key, words=o.words) for o in probes],
             'inconclusive': self.inconclusive,
             'samples': self.samples[:12] if self.samples else [o.words or o.name for o in obs[:6]],
             'evaluations': max(n, 1),
